@@ -235,6 +235,11 @@ func c40Snapshot(s *metadata.InMemoryStore, w c40World) (string, error) {
 		cfg, err := s.FetchTopicConfig(ctx, tp)
 		b := []byte{}
 		if cfg != nil {
+			if cfg.CreatedAt != "" {
+				// InMemoryStore synthesizes a default config stamped with the wall clock for topics
+				// without a stored one; that stamp is not store state
+				cfg.CreatedAt = "<set>"
+			}
 			b, _ = proto.MarshalOptions{Deterministic: true}.Marshal(cfg)
 		}
 		fmt.Fprintf(&sb, "config %q = %s %v\n", tp, hex.EncodeToString(b), err)
@@ -317,7 +322,7 @@ func c40String(t *rapid.T, w c40World, prop string, info *c40Arg) string {
 
 func c40Value(t *rapid.T, w c40World, prop string, schema map[string]any, info *c40Arg) any {
 	types := c40Types(schema)
-	if rapid.IntRange(0, 11).Draw(t, "wrongType") == 0 || len(types) == 0 {
+	if rapid.IntRange(0, 11).Draw(t, "wrongType") == 5 || len(types) == 0 {
 		return rapid.SampledFrom([]any{nil, 42, -1.5, true, "orders", []any{1, nil, map[string]any{}}, map[string]any{"a": 1}, []any{[]any{"orders"}}}).Draw(t, "wrong")
 	}
 	switch rapid.SampledFrom(types).Draw(t, "type") {
@@ -357,12 +362,12 @@ func c40Object(t *rapid.T, w c40World, schema map[string]any, info *c40Arg) map[
 	sort.Strings(keys)
 	for _, k := range keys {
 		ps, _ := props[k].(map[string]any)
-		if rapid.IntRange(0, 7).Draw(t, "omit") == 0 {
+		if rapid.IntRange(0, 7).Draw(t, "omit") == 3 {
 			continue
 		}
 		out[k] = c40Value(t, w, k, ps, info)
 	}
-	if rapid.IntRange(0, 9).Draw(t, "extra") == 0 {
+	if rapid.IntRange(0, 9).Draw(t, "extra") == 4 {
 		out[rapid.SampledFrom([]string{"names", "topics", "group_id", "force", "create", "__proto__"}).Draw(t, "extraKey")] =
 			rapid.SampledFrom([]any{true, "orders", []any{"orders"}, 1}).Draw(t, "extraVal")
 	}
@@ -417,9 +422,9 @@ func TestVF_C40_Tools(t *testing.T) {
 			info := &c40Arg{}
 			var args any
 			switch rapid.IntRange(0, 14).Draw(t, "argShape") {
-			case 0:
+			case 6:
 				args = nil
-			case 1:
+			case 7:
 				args = json.RawMessage(rapid.SampledFrom([]string{`[]`, `"orders"`, `null`, `7`, `{"names":{"0":"orders"}}`, `{"group_id":["grp-a"]}`}).Draw(t, "rawArgs"))
 			default:
 				args = c40Object(t, w, tool.schema, info)
